@@ -14,6 +14,19 @@ use std::sync::OnceLock;
 
 pub const TARGETS: [&str; 6] = ["fz_total", "fz_model", "fz_stream", "fz_frame", "fz_meta", "fz_chunk"];
 
+/// which fuzz target exercises a property
+pub fn target_of(prop: &str) -> Option<&'static str> {
+    Some(match prop {
+        "C01" => "fz_total",
+        "C06" | "C07" | "C08" | "C10" | "C14" => "fz_model",
+        "C02" | "C11" => "fz_stream",
+        "C03" | "C04" | "C05" => "fz_frame",
+        "C15" | "C16" | "C17" | "C18" => "fz_meta",
+        "C09" => "fz_chunk",
+        _ => return None,
+    })
+}
+
 fn runner(id: &'static str) -> &'static Runner {
     static RS: OnceLock<Vec<(&'static str, Runner)>> = OnceLock::new();
     let v = RS.get_or_init(|| props::all().iter().map(|p| (p.id, Runner::new(p.id, Tier::Quick, 1))).collect());
@@ -38,6 +51,64 @@ static K_CHUNK: [Kind; 1] = [Kind::Chunk];
 pub fn decode(target: &str, data: &[u8]) -> Vec<(&'static str, CaseRec)> {
     let mut u = Choice::new(data);
     let sel = u.byte();
+    // raw mode: the bytes after a 4-byte header are the buffer itself, so that the fuzzer's
+    // comparison tracing can synthesise magic literals the grammar does not know
+    if sel & 0x40 != 0 && target != "fz_meta" && data.len() >= 4 {
+        let kinds: &[Kind] = match target {
+            "fz_chunk" => &K_CHUNK,
+            "fz_model" => &K_MSG,
+            _ => &K_ALL,
+        };
+        let kind = kinds[(data[1] as usize) % kinds.len()];
+        let mut cfg = data[2] & 0x7f;
+        let entry = if cfg != 0 { crate::real::Entry::cfg_entry(kind) } else { entries_of(kind)[(data[1] as usize >> 4) % entries_of(kind).len()] };
+        if !entry.takes_cfg() {
+            cfg = 0;
+        }
+        let buf = data[4..].to_vec();
+        let lines = buf.iter().filter(|&&c| c == b'\n').count();
+        let cap = if data[3] & 1 == 0 { lines + 4 } else { (data[3] >> 1) as usize % 8 };
+        let mk = |sub: &'static str| CaseRec::new(sub, entry, cfg, cap, buf.clone());
+        let gen_cap = |sub: &'static str| CaseRec::new(sub, entry, cfg, lines + 8, buf.clone());
+        return match target {
+            "fz_total" => {
+                let mut r = mk("total");
+                r.aux = vec![1, 0];
+                vec![("C01", r)]
+            }
+            "fz_model" => {
+                let mut v = vec![("C10", mk("model"))];
+                match kind {
+                    Kind::Request => v.push(("C06", gen_cap("model"))),
+                    Kind::Response => v.push(("C07", gen_cap("model"))),
+                    _ => {}
+                }
+                if cfg == 0 {
+                    v.push(("C08", gen_cap("model")));
+                }
+                if kind != Kind::Headers {
+                    v.push(("C14", gen_cap("model")));
+                }
+                v
+            }
+            "fz_stream" => {
+                let mut a = mk("prefix");
+                a.buf.truncate(300);
+                let mut b = a.clone();
+                b.sub = std::borrow::Cow::Borrowed("partial-prefixes");
+                vec![("C02", a), ("C11", b)]
+            }
+            "fz_frame" => {
+                let mut v = vec![("C03", mk("frame"))];
+                if kind != Kind::Chunk {
+                    v.push(("C04", mk("zerocopy")));
+                    v.push(("C05", mk("hygiene")));
+                }
+                v
+            }
+            _ => vec![("C09", mk("model"))],
+        };
+    }
     let lenient = sel & 0x80 != 0;
     let profile = if lenient { Profile::LENIENT } else { Profile { big: false, ..Profile::DEFAULT } };
     let g_all = GenSpec { kinds: &K_ALL, profile, generous_cap: false, cfg_mask: 0x7f, cfg_entry_only: false };
@@ -107,8 +178,8 @@ pub fn decode(target: &str, data: &[u8]) -> Vec<(&'static str, CaseRec)> {
             hrec.sub = std::borrow::Cow::Borrowed("history");
             let (hb, _) = crate::gen::message(&mut u, rec.kind(), &profile);
             let he = entries_of(rec.kind())[(sel as usize >> 2) % 4];
-            hrec.bufs = vec![hb];
-            hrec.aux = vec![he as u64, if he.takes_cfg() { (sel & 0x7f) as u64 } else { 0 }, 4, 4];
+            hrec.bufs = vec![hb, vec![], vec![]];
+            hrec.aux = vec![he as u64, if he.takes_cfg() { (sel & 0x7f) as u64 } else { 0 }, 4, 0, 0, 0, 4];
             v.push(("C18", hrec));
             v
         }
@@ -118,7 +189,12 @@ pub fn decode(target: &str, data: &[u8]) -> Vec<(&'static str, CaseRec)> {
 
 /// Run one fuzz input. Err((property, violation)) on the first violation.
 pub fn fuzz_one(target: &str, data: &[u8], heap_mode: bool) -> Result<(), (&'static str, Violation)> {
-    let cases = decode(target, data);
+    static ONLY: OnceLock<Option<String>> = OnceLock::new();
+    let only = ONLY.get_or_init(|| std::env::var("VERIF_FUZZ_PROP").ok().filter(|s| !s.is_empty()));
+    let mut cases = decode(target, data);
+    if let Some(o) = only {
+        cases.retain(|(id, _)| id == o);
+    }
     CTX.with(|c| {
         let mut g = c.borrow_mut();
         let (ctx, local) = &mut *g;
